@@ -801,6 +801,8 @@ pub enum ExtendedProtocolData {
     Parse {
         data: BytesMut,
         metadata: Option<(Arc<Parse>, u64)>,
+        /// The name the client gave the statement (`data` carries the rewritten one).
+        client_given_name: Option<String>,
     },
     Bind {
         data: BytesMut,
@@ -820,8 +822,16 @@ pub enum ExtendedProtocolData {
 }
 
 impl ExtendedProtocolData {
-    pub fn create_new_parse(data: BytesMut, metadata: Option<(Arc<Parse>, u64)>) -> Self {
-        Self::Parse { data, metadata }
+    pub fn create_new_parse(
+        data: BytesMut,
+        metadata: Option<(Arc<Parse>, u64)>,
+        client_given_name: Option<String>,
+    ) -> Self {
+        Self::Parse {
+            data,
+            metadata,
+            client_given_name,
+        }
     }
 
     pub fn create_new_bind(data: BytesMut, metadata: Option<(Arc<Parse>, u64)>) -> Self {
